@@ -2,8 +2,8 @@ package main
 
 import (
 	"fmt"
-	"os"
 	"go/types"
+	"os"
 	"sort"
 	"strings"
 
@@ -73,6 +73,43 @@ func (g *Gen) VerifyUnit(ct *Contract, inst *ssa.Function) (res *UnitResult) {
 		ct.Ghosts[i].Hits = 0
 	}
 	u := g.newUnitGen(res.Unit, fn, ct)
+	// Lemma asserts and the ghost snapshots they use are proof hints tied to a source line. When
+	// the line is gone (code restructured) the hint is dropped: the remaining obligations are
+	// still checked, they just have to go through without it.
+	if syn := fn.Syntax(); syn != nil && (len(ct.Asserts) > 0 || len(ct.Ghosts) > 0) {
+		start, end := g.fset.Position(syn.Pos()), g.fset.Position(syn.End())
+		lines := g.lines(start.Filename)
+		has := func(anchor string) bool {
+			for l := start.Line; l <= end.Line && l <= len(lines); l++ {
+				if l >= 1 && strings.Contains(lines[l-1], anchor) {
+					return true
+				}
+			}
+			return false
+		}
+		var deadGhosts []string
+		for i := range ct.Ghosts {
+			ct.Ghosts[i].Dead = !has(ct.Ghosts[i].Anchor)
+			if ct.Ghosts[i].Dead {
+				deadGhosts = append(deadGhosts, ct.Ghosts[i].Var)
+				u.notes = append(u.notes, fmt.Sprintf("ghost snapshot %s dropped: its anchor %q occurs nowhere in the function any more", ct.Ghosts[i].Var, ct.Ghosts[i].Anchor))
+			}
+		}
+		for i := range ct.Asserts {
+			a := &ct.Asserts[i]
+			a.Dead = !has(a.Anchor)
+			why := fmt.Sprintf("its anchor %q occurs nowhere in the function any more", a.Anchor)
+			for _, gv := range deadGhosts {
+				if mentionsWord(a.Text, gv) {
+					a.Dead = true
+					why = "it mentions the dropped ghost snapshot " + gv
+				}
+			}
+			if a.Dead {
+				u.notes = append(u.notes, fmt.Sprintf("lemma assert [%s] dropped (proof hint only): %s", a.Label, why))
+			}
+		}
+	}
 	defer func() {
 		if r := recover(); r != nil {
 			if us, ok := r.(unsupported); ok {
@@ -365,12 +402,12 @@ func (u *UnitGen) run() {
 	u.frameObligations(entry, final, env)
 	u.lockBalance(entry, final, env)
 	for _, gu := range u.contract.Ghosts {
-		if gu.Hits == 0 {
+		if gu.Hits == 0 && !gu.Dead {
 			unsup("ghost anchor %q matches no executed source line of the function (code moved?)", gu.Anchor)
 		}
 	}
 	for _, a := range u.contract.Asserts {
-		if a.Hits == 0 {
+		if a.Hits == 0 && !a.Dead {
 			unsup("assert anchor %q matches no executed source line of the function (code moved?)", a.Anchor)
 		}
 	}
@@ -812,4 +849,20 @@ func (u *UnitGen) contractMentions(name string) bool {
 		}
 	}
 	return false
+}
+
+func mentionsWord(text, w string) bool {
+	for i := 0; ; {
+		j := strings.Index(text[i:], w)
+		if j < 0 {
+			return false
+		}
+		j += i
+		before := j == 0 || !isIdentPart(text[j-1])
+		after := j+len(w) >= len(text) || !isIdentPart(text[j+len(w)])
+		if before && after {
+			return true
+		}
+		i = j + len(w)
+	}
 }
